@@ -229,6 +229,7 @@ func (c *Ctx) CG() *CallGraph {
 	}
 	scanned := map[*ssa.Function]bool{}
 	pendingByType := map[*types.Named][]*ssa.Function{}
+	pendingByParent := map[*ssa.Function][]*ssa.Function{}
 	var walk func(fn *ssa.Function, dynamic bool)
 	walk = func(fn *ssa.Function, dynamic bool) {
 		if g.live[fn] {
@@ -237,6 +238,11 @@ func (c *Ctx) CG() *CallGraph {
 		if dynamic {
 			if rn := recvNamed(fn); rn != nil && !inst[rn] {
 				pendingByType[rn] = append(pendingByType[rn], fn)
+				return
+			}
+			// an anonymous function exists only once its enclosing function has run
+			if par := fn.Parent(); par != nil && !g.live[par] {
+				pendingByParent[par] = append(pendingByParent[par], fn)
 				return
 			}
 		}
@@ -282,6 +288,15 @@ func (c *Ctx) CG() *CallGraph {
 		for t, fns := range pendingByType {
 			if inst[t] && len(fns) > 0 {
 				pendingByType[t] = nil
+				for _, fn := range fns {
+					walk(fn, false)
+				}
+				changed = true
+			}
+		}
+		for par, fns := range pendingByParent {
+			if g.live[par] && len(fns) > 0 {
+				pendingByParent[par] = nil
 				for _, fn := range fns {
 					walk(fn, false)
 				}
